@@ -183,6 +183,29 @@ var goAPI2 = []struct {
 			vm.Call(`Object.keys`, nil, v)
 		}
 	}},
+	{"argument-mutated-while-it-is-converted", func(vm *otto.Otto) {
+		// converting a script array / object into a Go slice, array, map or struct parameter reads its
+		// elements, which can run script (accessors, inherited accessors behind holes, toString for []string)
+		// that grows, shrinks or replaces the very array being converted (seed P01)
+		vm.Set("ints", func(a []int) int { return len(a) })
+		vm.Set("strs", func(a []string) int { return len(a) })
+		vm.Set("ifaces", func(a []interface{}) int { return len(a) })
+		vm.Set("arr3", func(a [3]int) int { return a[0] })
+		vm.Set("nested", func(a [][]int) int { return len(a) })
+		vm.Set("vari", func(a ...int) int { return len(a) })
+		vm.Set("smap", func(m map[string]int) int { return len(m) })
+		vm.Set("st", func(s struct{ A, B int }) int { return s.A })
+		for _, fn := range []string{"ints", "strs", "ifaces", "arr3", "nested", "smap", "st"} {
+			for _, mut := range []string{"a.push(1, 2, 3)", "a.length = 100", "a.length = 0", "a.pop()", "a[50] = 1", "delete a[2]", "a.splice(0, 2)", "a.unshift(9, 9)", "Object.defineProperty(a, 'length', {writable: false})"} {
+				vm.Run(`var a = [1, 2, 3]; Object.defineProperty(a, 1, {get: function(){ ` + mut + `; return 7 }, configurable: true}); ` + fn + `(a)`)
+				vm.Run(`var a = [1, , 3]; Object.defineProperty(Array.prototype, 1, {get: function(){ ` + mut + `; return 7 }, configurable: true}); try { ` + fn + `(a) } finally { delete Array.prototype[1] }`)
+				vm.Run(`var a = [1, {toString: function(){ ` + mut + `; return "7" }, valueOf: function(){ ` + mut + `; return 7 }}, 3]; ` + fn + `(a)`)
+				vm.Run(`var a = {A: 1, get B(){ delete this.A; this.C = 1; return 2 }}; ` + fn + `(a)`)
+			}
+		}
+		vm.Run(`var a = [1, 2, 3]; Object.defineProperty(a, 0, {get: function(){ a.push(4, 5, 6, 7); return 7 }}); vari.apply(null, a)`)
+		vm.Run(`var a = [[1], [2]]; Object.defineProperty(a[0], 0, {get: function(){ a.push([3], [4]); a[1].push(5, 6); return 7 }}); nested(a)`)
+	}},
 	{"context-with-throwing-getters", func(vm *otto.Otto) {
 		// Context / ContextLimit / ContextSkip read every visible binding: accessor properties of with objects
 		// and of the global object run script that may throw (2253018)
